@@ -360,6 +360,13 @@ def step (st : St) (line : String) : St × String :=
     match hexStr? h with
     | some p => (st, strHex (clean p))
     | none => (st, "bad-op")
+  | ["origname", h] =>
+    match hexStr? h with
+    | some p =>
+      match validName p with
+      | none => (st, "invalid")
+      | some c => (st, "valid:" ++ strHex c)
+    | none => (st, "bad-op")
   | ["dirof", h] =>
     match hexStr? h with
     | some p => (st, strHex (dirOf p))
